@@ -570,7 +570,11 @@ class DcmMetaExtension(Nifti1Extension):
         dictionaries).
         '''
         result = klass(dcm_meta_ecode, '{}')
-        result._content = runtime_repr
+        try:
+            result._content = runtime_repr
+        except AttributeError:
+            #Newer nibabel exposes _content as a read only view of _object
+            result._object = runtime_repr
         result.check_valid()
         return result
 
